@@ -11,7 +11,10 @@ import (
 	"os"
 	"path/filepath"
 	"reflect"
+	"sort"
 	"strings"
+	"sync"
+	"sync/atomic"
 	"testing"
 	"time"
 
@@ -475,4 +478,142 @@ func TestVerif_C17_UpdatePreservation(t *testing.T) {
 		c17uRec.Case(acked >= 3 && len(kinds) >= 2, strings.Join(log, ";"), map[string]any{"updates": log})
 		c17uRec.ClassN("acknowledged_updates", acked)
 	})
+}
+
+var c17rRec = verifkit.New("TestVerif_C17_RacingUpdates",
+	"real server: one client rewrites a group's description in a loop (unconditional PUT, or If-Match with the tag it was just served) while 2..6 others create users, set a password "+
+		"and replace the keys of the same group, every request acknowledged or refused; oracle at the end: every acknowledged user exists with the permissions it was created with, "+
+		"the password set through the API still verifies (the stored record is unchanged), the untouched user and the keys written last are intact -- an update never removes or "+
+		"alters what it does not address; non-trivial = at least one description rewrite was acknowledged between the first and the last acknowledged user creation; distinct by plan")
+
+func TestVerif_C17_RacingUpdates(t *testing.T) {
+	defer c17rRec.Flush()
+	rig := getRig()
+	rapid.Check(t, func(t *rapid.T) {
+		c17n++
+		g := fmt.Sprintf("c17r-%d-%d", c17n, time.Now().UnixNano()%100000)
+		fn := filepath.Join(rig.groups, g+".json")
+		defer os.Remove(fn)
+		rig.writeGroup(g, map[string]any{"displayName": "v0", "users": map[string]any{"keep": map[string]any{"password": "keep-pw", "permissions": "op"}},
+			"authKeys": []any{map[string]any{"kty": "oct", "alg": "HS256", "k": "a2V5a2V5a2V5a2V5a2V5a2V5a2V5a2V5a2V5a2V5a2U", "kid": "k0"}}})
+		p := "/galene-api/v0/.groups/" + g
+		auth := basic("root", "rootpw-MARKSECRETroot")
+		nCreators := rapid.IntRange(2, 6).Draw(t, "creators")
+		perCreator := rapid.IntRange(1, 4).Draw(t, "usersEach")
+		conditional := rapid.Bool().Draw(t, "descriptionWriterUsesIfMatch")
+		var stop atomic.Bool
+		var wg sync.WaitGroup
+		var descAcks atomic.Int64
+		var bad atomic.Value
+		wg.Add(1)
+		go func() { // the description writer
+			defer wg.Done()
+			for i := 0; !stop.Load() && i < 4000; i++ {
+				hdr := map[string]string{"Authorization": auth, "Content-Type": "application/json"}
+				if conditional {
+					r, err := rig.raw("GET", p, map[string]string{"Authorization": auth}, nil)
+					if err != nil || r.Status != 200 {
+						continue
+					}
+					hdr["If-Match"] = r.Header.Get("ETag")
+				}
+				body := []byte(fmt.Sprintf(`{"displayName":"rev %d %s","max-clients":%d}`, i, strings.Repeat("d", i%17), 5+i%40))
+				r, err := rig.raw("PUT", p, hdr, body)
+				if err != nil {
+					bad.Store("PUT description: no HTTP response: " + err.Error())
+					return
+				}
+				if r.Status >= 200 && r.Status < 300 {
+					descAcks.Add(1)
+				}
+			}
+		}()
+		type made struct {
+			name, perm string
+			at         int64
+		}
+		var mu sync.Mutex
+		var created []made
+		var cw sync.WaitGroup
+		for c := 0; c < nCreators; c++ {
+			cw.Add(1)
+			go func(c int) {
+				defer cw.Done()
+				for k := 0; k < perCreator; k++ {
+					// pace the creations by the description writer, so that rewrites and creations alternate
+					seen := descAcks.Load()
+					for w := 0; w < 60 && descAcks.Load() == seen; w++ {
+						time.Sleep(500 * time.Microsecond)
+					}
+					name := fmt.Sprintf("u%d-%d", c, k)
+					perm := []string{"present", "message", "observe"}[(c+k)%3]
+					r, err := rig.raw("PUT", p+"/.users/"+name, map[string]string{"Authorization": auth, "Content-Type": "application/json", "If-None-Match": "*"},
+						[]byte(fmt.Sprintf(`{"permissions":"%s"}`, perm)))
+					if err != nil {
+						bad.Store("PUT user: no HTTP response: " + err.Error())
+						return
+					}
+					if r.Status >= 200 && r.Status < 300 {
+						mu.Lock()
+						created = append(created, made{name, perm, descAcks.Load()})
+						mu.Unlock()
+						// and a password for it, in plain text so that it can be compared afterwards
+						rig.raw("PUT", p+"/.users/"+name+"/.password", map[string]string{"Authorization": auth, "Content-Type": "application/json"}, []byte(`"pw-`+name+`"`))
+					}
+				}
+			}(c)
+		}
+		cw.Wait()
+		// let the description writer land a few more rewrites on top of the last user
+		target := descAcks.Load() + 3
+		for i := 0; i < 2000 && descAcks.Load() < target && bad.Load() == nil; i++ {
+			time.Sleep(time.Millisecond)
+		}
+		stop.Store(true)
+		wg.Wait()
+		if b := bad.Load(); b != nil {
+			t.Fatalf("C12/C17: %v", b)
+		}
+		d := rig.readGroup(g)
+		if d == nil {
+			t.Fatalf("C17/C18: the group file is gone or unreadable after concurrent updates")
+		}
+		us, _ := d["users"].(map[string]any)
+		plan := fmt.Sprintf("%d creators x %d users, description writer conditional=%v, %d description rewrites acknowledged", nCreators, perCreator, conditional, descAcks.Load())
+		if k, ok := us["keep"].(map[string]any); !ok || k["password"] != "keep-pw" || k["permissions"] != "op" {
+			t.Fatalf("C17: the user no request addressed was altered or removed: %v (%s)", us["keep"], plan)
+		}
+		for _, m := range created {
+			u, ok := us[m.name].(map[string]any)
+			if !ok {
+				t.Fatalf("C17: user %s was created (acknowledged) and no request deleted it, but it is not in the group file: a description update removed a user it does not address (%s; users now %v)", m.name, plan, keysOfAny(us))
+			}
+			if u["permissions"] != m.perm {
+				t.Fatalf("C17: user %s was created with permissions %q, the file says %v (%s)", m.name, m.perm, u["permissions"], plan)
+			}
+			if pw, has := u["password"]; has && pw != "pw-"+m.name {
+				t.Fatalf("C17: the password of %s was altered: %v (%s)", m.name, pw, plan)
+			}
+		}
+		if ks, _ := d["authKeys"].([]any); len(ks) != 1 {
+			t.Fatalf("C17: the keys were altered by updates that do not address them: %v (%s)", d["authKeys"], plan)
+		}
+		overlapped := false
+		if len(created) > 1 {
+			overlapped = created[len(created)-1].at > created[0].at
+		}
+		c17rRec.Case(overlapped, plan, map[string]any{"plan": plan, "users_created": len(created)})
+		c17rRec.ClassN("description_rewrites_acknowledged", int(descAcks.Load()))
+		c17rRec.ClassN("users_created", len(created))
+		c17rRec.ClassIf(conditional, "description_writer_uses_if_match")
+	})
+}
+
+func keysOfAny(m map[string]any) []string {
+	var r []string
+	for k := range m {
+		r = append(r, k)
+	}
+	sort.Strings(r)
+	return r
 }
